@@ -17,6 +17,11 @@ type Waiter struct {
 	// Lazy initialized.
 	timer   *time.Timer
 	lastNow time.Time
+
+	// Set when overdueDuration was measured against the cached lastNow, which can be
+	// arbitrarily older than the current time. IsSlowDown re-measures it then.
+	overdueIsStale bool
+	lastNext       time.Time
 }
 
 func NewWaiter(sched core.Schedule) *Waiter {
@@ -37,6 +42,7 @@ func (w *Waiter) Wait(ctx context.Context) (ok bool) {
 	next, ok := w.sched.Next()
 	if !ok {
 		w.overdueDuration = 0
+		w.overdueIsStale = false
 		return false
 	}
 	// Get current time lazily.
@@ -44,8 +50,11 @@ func (w *Waiter) Wait(ctx context.Context) (ok bool) {
 	waitFor := next.Sub(w.lastNow)
 	if waitFor <= 0 {
 		w.overdueDuration = 0 - waitFor
+		w.overdueIsStale = true
+		w.lastNext = next
 		return true
 	}
+	w.overdueIsStale = false
 	w.lastNow = time.Now()
 	waitFor = next.Sub(w.lastNow)
 	if waitFor <= 0 {
@@ -73,6 +82,13 @@ func (w *Waiter) IsSlowDown(ctx context.Context) (ok bool) {
 	case <-ctx.Done():
 		return false
 	default:
+		if w.overdueIsStale {
+			// The event was known to be in the past from the cached time only.
+			// How late it is has to be measured against the current time.
+			w.overdueIsStale = false
+			w.lastNow = time.Now()
+			w.overdueDuration = w.lastNow.Sub(w.lastNext)
+		}
 		return w.overdueDuration >= MaxOverdueDuration
 	}
 }
